@@ -572,8 +572,8 @@ def run_callers(ctx, replay_case):
         si4c = [caller_of_line("si4", replay_case["line"], replay_case.get("kind", "replay"))] if path == "si4" else []
         renc = [caller_of_line("render", replay_case["line"], replay_case.get("kind", "replay"))] if path == "render" else []
     else:
-        si4c = gen_si4_cases(rng, 4 if quick else 60, 400 if quick else 8000)
-        renc = gen_render_cases(rng, 300 if quick else 6000, _SI4["lv"]) if _SI4["render"] else []
+        si4c = gen_si4_cases(rng, 4 if quick else 30, 400 if quick else 5000)
+        renc = gen_render_cases(rng, 300 if quick else 3000, _SI4["lv"]) if _SI4["render"] else []
     fails = {}
 
     def fail(what, case, key, expected=None, observed=None):
